@@ -19,7 +19,7 @@ EXPLANATION = (
     "by the same min(bits); R3 encode_phys = int(round(value / factor)) and decode_phys = value * factor under the "
     "same INTEGER_TYPES predicate; R4 encode_desc/decode_desc read the one value_descriptions table in opposite "
     "directions and raise for unknown entries; R5 the raw/phys/desc/bits/read/write views are defined once in Variable "
-    "over get_data/set_data and neither SdoVariable nor PdoVariable overrides any of them; R6 structural assumptions shared by all properties: no class-level mutable object is mutated in place by instances, no method re-runs the constructor, logging statements cannot raise (typed eager formatting, divisions), no mutable default argument is kept or mutated, no new truth-value test of a None-able number."
+    "over get_data/set_data and neither SdoVariable nor PdoVariable overrides any of them; R6 structural assumptions shared by all properties: no class-level mutable object is mutated in place by instances, no method re-runs the constructor, logging statements cannot raise (typed eager formatting, divisions), no mutable default argument is kept or mutated, no new truth-value test of a None-able number, a look-up memory the pinned tree does not have is keyed by all its inputs (arithmetic keys folded over a grid of addresses) and, on the serving side, emptied somewhere."
     ' R2 accepts a handler that only rejects (raise / nothing) where it demanded pass.'
     ' R3 decides the rounding of encode_phys by evaluation for ten quotients.'
 )
